@@ -14,6 +14,7 @@ import (
 	"fmt"
 	"os"
 	"os/exec"
+	"path/filepath"
 	"runtime"
 	"runtime/debug"
 	"runtime/pprof"
@@ -459,6 +460,7 @@ func main() {
 		"Part 2 (place): per configuration the fixed packet sequence [%s] with ALL placements (7 slots, non-decreasing) of the event scripts of one reader {%s} (j join, p PAUSE, r re-PLAY, t TEARDOWN, c abrupt close of the connection); two readers: scripts {%s} x {%s} at all placements - always: on stream-to-reader/tcp and relay/tcp>tcp of shape 2m one reader always on and the other running every placement (both on tcp); budget permitting: the full product per configuration (reader 1 on the configuration's second transport), quick: the two tcp configurations of shape 2m, thorough: all 14 configurations of shape 2m then tcp and udp of shape 1m2f. A fresh world per case, start sequence number alternating 0/65534 (TLS: 0). "+
 		"Part 3: one case per TLS configuration with a reader joining exactly at the sequence-number wrap. Part 4 (report only): PAUSE/TEARDOWN right after the six packets without barrier. "+
 		"Part 5 (write boundaries, companion binary): {Server session playing to a raw reader over TCP, Client recording to a scripted server over TCP} x 3 packet-size lists; after EVERY socket write of the media writer the writer is held, the peer sends a request (GET_PARAMETER / OPTIONS) and the answer is written by the other goroutine before the writer continues; the receiving side parses the stream with conn.Conn: every element parses, the RTP channel carries exactly the packets written, every request gets its answer; 3 identical runs. "+
+		"Part 6 (queue cores, companion binary = the drivers of C16): every interleaving up to the preemption bound of 1-2 producers, Start/Close and the consumer on the real ring buffer / async processor under the controlled scheduler (mutex, condition, channel and atomic operations are scheduling points): an accepted item is executed exactly once, in order, or a refusal was reported. "+
 		"Before PAUSE and TEARDOWN the harness runs a delivery barrier for that reader (a sentinel packet per (media, format), wait for its arrival); abrupt close is issued without one; a final barrier ends every case. Work packages run in a fixed order while the wall-clock budget lasts (quick %v, thorough %v after start); packages not run are listed under caps_hit and make exhaustive=false. "+
 		"state = (configuration, vector of reader states none/playing/paused/gone); transition = one write, barrier or reader event executed on the implementation; trace = one world. evaluation = one packet word or one placement case; non-trivial = at least one packet reached a reader's callback; distinct = distinct (configuration, step list).",
 		len(configs()), wsText, lettersString(seqAlphabet), lettersString(placeSeq), strings.Join(scripts(ev1), ","), strings.Join(scripts(ev2), ","), strings.Join(scripts(ev2), ","), budgetQuick, budgetThorough))
@@ -469,14 +471,19 @@ func main() {
 
 	if run.Replay != "" {
 		var d struct {
-			Case     Case `json:"case"`
-			Boundary bool `json:"write_boundary"`
+			Case      Case `json:"case"`
+			Boundary  bool `json:"write_boundary"`
+			QueueCore bool `json:"queue_core"`
 		}
 		if err := evid.LoadReplay(run.Replay, &d); err != nil {
 			run.Fatal("replay: %v", err)
 		}
 		if d.Boundary {
 			boundary(run)
+			run.Finish()
+		}
+		if d.QueueCore {
+			queueCores(run)
 			run.Finish()
 		}
 		rs := evid.RunJobs([]any{job{Cases: []Case{d.Case}}}, 1, 5*time.Minute)
@@ -922,6 +929,7 @@ func main() {
 		run.Sample(map[string]any{"history": caseString(expand(cases[len(cases)-1]))})
 	}
 	boundary(run)
+	queueCores(run)
 	run.Finish()
 }
 
@@ -1001,4 +1009,62 @@ func boundary(run *evid.Run) {
 		}
 	}
 	run.Set("write_boundaries_with_an_injected_answer", tot)
+}
+
+// queueCores runs the controlled-scheduler exploration of the outbound queue (the drivers of checks/c16,
+// built a second time as this check's companion): the delivery path of every TCP-based reader goes through
+// that queue, and "no packet written after PLAY is missing unless a write-queue-full error was reported,
+// for all goroutine interleavings" includes the interleavings of several writers (one per media, RTP next to
+// RTCP) inside it - the part that the serialised whole-system parts cannot produce. A violation of a queue
+// driver (lost wake-up, item lost or reordered without a refusal) is a violation of this property.
+func queueCores(run *evid.Run) {
+	bin := os.Getenv("VERIF_CORES")
+	if bin == "" {
+		run.Fatal("VERIF_CORES not set: run through ./vcheck")
+	}
+	tmp, err := os.MkdirTemp(os.Getenv("VERIF_WORK"), "qcores")
+	if err != nil {
+		run.Fatal("queue cores: %v", err)
+	}
+	defer os.RemoveAll(tmp)
+	tier := "quick"
+	if run.Thorough() {
+		tier = "thorough"
+	}
+	cmd := exec.Command(bin, "--tier", tier)
+	cmd.Env = append(os.Environ(), "VERIF_OUT="+tmp, "C16_AS_CORES=1", "VERIF_RACE=")
+	out, _ := cmd.CombinedOutput()
+	var ev struct {
+		Coverage struct {
+			Evaluations int64 `json:"evaluations"`
+			States      int64 `json:"states"`
+			Transitions int64 `json:"transitions"`
+			Exhaustive  bool  `json:"exhaustive"`
+		} `json:"coverage"`
+	}
+	b, err := os.ReadFile(filepath.Join(tmp, "evidence", "C16.json"))
+	if err != nil || json.Unmarshal(b, &ev) != nil {
+		run.Fatal("queue cores: no evidence written: %v\n%s", err, string(out[max(0, len(out)-1500):]))
+	}
+	run.Eval(ev.Coverage.Evaluations)
+	run.Trace(ev.Coverage.Evaluations)
+	run.Transition(ev.Coverage.Transitions)
+	run.Set("queue_core_schedules", ev.Coverage.Evaluations)
+	run.Set("queue_core_states", ev.Coverage.States)
+	if !ev.Coverage.Exhaustive {
+		run.Cap("queue cores: the exploration hit a cap (see the C16 evidence of the same tree)")
+	}
+	files, _ := filepath.Glob(filepath.Join(tmp, "replays", "C16-*.json"))
+	for _, f := range files {
+		var r struct {
+			Signature string         `json:"signature"`
+			Detail    map[string]any `json:"detail"`
+		}
+		rb, _ := os.ReadFile(f)
+		if json.Unmarshal(rb, &r) != nil || strings.HasPrefix(r.Signature, "binding/") {
+			continue
+		}
+		r.Detail["queue_core"] = true
+		run.Violation("queue-core/"+r.Signature, r.Detail)
+	}
 }
